@@ -122,6 +122,13 @@ func witness(id int) (wuCase, bool) {
 		c := wuCase{ID: id, Name: "warning-token-zero", T: 3, Period: 1, CF: 5}
 		c.Ops = steady(c.Ops, t+10, 25, 1, 1)
 		return c, true
+	case 14, 15, 16: // empty token range (maxToken == warningToken) with threshold >= 1 under a steady single-token demand:
+		// the rule in force is the plain threshold, the demand must be admitted (these are NOT the recorded starvation
+		// findings: F1 needs a non-empty range, F2 threshold == cold factor)
+		cfg := [][3]float64{{2, 1, 5}, {1, 1, 2}, {3, 1, 10}}[id-wuBase-14]
+		c := wuCase{ID: id, Name: "empty-token-range-steady-demand", T: fl(cfg[0]), Period: uint32(cfg[1]), CF: uint32(cfg[2])}
+		c.Ops = steady(c.Ops, t+10, 30, 1, 1)
+		return c, true
 	case 12: // the same ordinary warm-up carried by a Throttling rule: pacing at the warm-up rate, must warm up as well
 		c := wuCase{ID: id, Name: "ordinary-throttling", T: 12, Period: 3, CF: 3, Throttling: true}
 		c.Ops = steady(c.Ops, t+10, 20, 14, 1)
@@ -333,8 +340,8 @@ func monitorWu(c wuCase, o wuObs, rep *emit.Report) (nontrivial bool) {
 	}
 	// runs of consecutive seconds
 	var starveStart, lastSec uint64
-	starveLen := 0 // consecutive seconds with a single-token request and nothing admitted
-	satLen := 0    // consecutive saturated seconds (offered >= T+1 and something rejected)
+	starveLen := 0              // consecutive seconds with a single-token request and nothing admitted
+	satLen := 0                 // consecutive saturated seconds (offered >= T+1 and something rejected)
 	satRunStart, curIdx := 0, 0 // first request of the current run of saturated seconds; request being looked at
 	lastFull := -1              // latest request whose allowed value was the full threshold
 	var secOffered int64
@@ -454,6 +461,9 @@ func monitorWu(c wuCase, o wuObs, rep *emit.Report) (nontrivial bool) {
 			sig := "warmup-starved"
 			switch {
 			case math.IsNaN(a):
+			case degenerate:
+				// an empty token range has no ramp: the rule is the plain threshold and cannot starve a single token
+				sig = "warmup-empty-token-range-starved"
 			case T < float64(cf):
 				sig = sigD10
 			case T == float64(cf) && a < 1:
